@@ -131,6 +131,15 @@ func allChecks() []CheckSpec {
 						c.MaxPaths = 6000000
 						c.MaxWallS = 2400
 					}},
+				{Fn: "verifC08CloseAfterRestart", Lemma: "Close after a Restart that cancelled a gathering cycle at any explored moment of it: Restart returns nil, Close still waits for the cancelled cycle — once it has returned that cycle opens no socket, every socket it opened is closed and no goroutine of it is left; same finality clauses",
+					Bounds: "one IPv4 interface, host candidates only, socket opening gated (released by a helper goroutine after 0..2 hand-overs; thorough: 0..5, or immediate); GatherCandidates; 0..1 (thorough 0..3) hand-overs; Restart; 0..3 (thorough 0..7) hand-overs; Close or GracefulClose; " + c08Common, MustReach: []string{"closed", "slow-network", "socket-opened-before-close", "done"},
+					Cfg: func(c *HarnessCfg, tier int) {
+						c.GoPolicy = "explore"
+						c.ContextBound = 1
+						c.FreeChoiceBound = 3 + 2*tier
+						c.MaxPaths = 6000000
+						c.MaxWallS = 2400
+					}},
 				{Fn: "verifC08CloseInCallback", Lemma: "Close called from inside the connection-state callback (on Checking) returns; same finality clauses",
 					Bounds: "StartDial triggers Checking; " + c08Common, MustReach: []string{"closed", "done"},
 					Cfg: func(c *HarnessCfg, tier int) {
@@ -286,6 +295,12 @@ func allChecks() []CheckSpec {
 				{Fn: "verifC12LastWriter", Lemma: "last writer wins for every write history: two connections write to two remote addresses in any order; after every write the address table points at the writer; afterwards a datagram from each address is delivered to the connection that wrote to it last and to no other (dropped if nobody wrote); removing the last writer's ufrag unbinds the address and nothing falls back to the earlier writer",
 					Bounds: "2 ufrags, 2 remote addresses, every sequence of 3 (thorough 4) writes by any handle to any address, symbolic inbound payloads", MustReach: []string{"never-written", "taken-over-or-kept", "done"},
 					Cfg: func(c *HarnessCfg, tier int) { c.GoPolicy = "queue" }},
+				{Fn: "verifC12Universal", Lemma: "the universal mux's socket wrapper only observes: through the real NewUniversalUDPMuxDefault, wrapper (net.Addr and AddrPort flavour), connWorker and dispatcher, two consecutive datagrams from an address a connection wrote to — a binding success with or without XOR-MAPPED-ADDRESS, or non-STUN bytes, then data — both reach that connection byte-identical, with the true source and in arrival order, whether or not the address is a STUN server the mux is waiting on; the mapped address is still learned from such a response",
+					Bounds: "1 ufrag, 1 remote address, first datagram of 3 kinds (symbolic transaction id / payload), xorMappedMap entry present or absent, both socket flavours", MustReach: []string{"addrport-socket", "response-of-a-known-stun-server", "done"},
+					Cfg: func(c *HarnessCfg, tier int) { c.GoPolicy = "queue" }},
+				{Fn: "verifC12ClosedHandle", Lemma: "a closed connection receives nothing: two handles of one ufrag (either flavour), a datagram for it queued before or arriving after one handle is closed; a read on the closed handle fails, returns nothing and takes nothing from the queue; the open handle then reads the datagram unchanged",
+					Bounds: "1 ufrag, 2 handles, 1 datagram of 3 symbolic bytes, close before or after arrival, either handle closed, either one the writer", MustReach: []string{"addrport-handles", "arrives-after-the-close", "done"},
+					Cfg: func(c *HarnessCfg, tier int) { c.GoPolicy = "queue" }},
 				{Fn: "verifC12ShortBuffer", Lemma: "per-connection FIFO with readers whose buffer may be too small: three datagrams (3..4 bytes, symbolic content) arrive; reads with an 8-byte or a 2-byte buffer in any order: only a too-small buffer fails a read (short buffer, nothing returned), every delivered datagram is complete, unmodified and carries the peer's address, none is delivered twice, and delivered datagrams keep their arrival order (one that did not fit never comes back later)",
 					Bounds: "1 connection, 3 datagrams, 3 (thorough 4) reads, buffer sizes {2, 8}", MustReach: []string{"short-buffer", "delivered", "done"},
 					Cfg: func(c *HarnessCfg, tier int) { c.GoPolicy = "queue" }},
@@ -416,7 +431,7 @@ func allChecks() []CheckSpec {
 					Bounds: "2 local x 1 remote pairs with symbolic states and priorities 1..256, selection nil/any, payload lengths {0,1,19,20,24} with all bytes symbolic (covers the STUN cookie window), per-socket outcome ok/error/ErrClosedPipe, open/closed agent", MustReach: []string{"closed", "stun-like", "no-valid-pair", "socket-error", "sent", "done"}},
 				{Fn: "verifC07WriteToPair", Lemma: "Conn.WriteToPair: unknown id or not-Succeeded pair => its error and nothing sent; else one datagram on that pair with the same bytes; counters",
 					Bounds: "any 64-bit id, symbolic pair states, payload lengths {1,19,20,24}", MustReach: []string{"unknown-id", "not-succeeded", "sent", "done"}},
-				{Fn: "verifC07Inbound", Lemma: "non-STUN datagram at a local candidate: reaches the reader exactly once and byte-identical iff its source is (cached as) a known remote of the same transport; otherwise dropped with no state change; cache entries only map an address to the current remote with that address; Read adds exactly the returned n",
+				{Fn: "verifC07Inbound", Lemma: "non-STUN datagram at a local candidate: reaches the reader exactly once and byte-identical iff its source is (cached as) a known remote of the same transport; otherwise dropped with no state change; cache entries only map an address to the current remote with that address; Read adds exactly the returned n; each delivered datagram (the first and the cache-answered next one) refreshes the sender's LastReceived and no other remote's",
 					Bounds: "1 local + 2 UDP remotes + 1 TCP remote with another address, source = any IPv4 address:port / the TCP remote / IPv4-mapped remote, cache empty or pre-filled, payload lengths {1,19,20,24}", MustReach: []string{"unknown-source", "known-source", "done"}},
 				{Fn: "verifC07InboundSTUN", Lemma: "STUN-looking datagrams (header-only, any type/transaction id) never reach the reader buffer",
 					Bounds: "20-byte header with the magic cookie, symbolic type and transaction id, any source", MustReach: []string{"done"}},
@@ -441,6 +456,10 @@ func allChecks() []CheckSpec {
 					Cfg: func(c *HarnessCfg, tier int) { c.GoPolicy = "queue" }},
 				{Fn: "verifC04FailedIsTerminal", Lemma: "Failed is left only through Restart or Close: a gathering cycle that was running when the agent failed hands its host candidate over afterwards, the peer trickles a candidate and nominates the pair with authenticated messages: the failed agent takes no candidate and stays Failed",
 					Bounds: "controlled full agent, one late host candidate, one trickled remote candidate, one nominating request and the matched response of the triggered check", MustReach: []string{"late-candidate-refused", "done"}},
+				{Fn: "verifC04ConfigTimeouts", Lemma: "from AgentConfig to the thresholds: through the real initWithDefaults and the lite default, an absent timeout is the default (10 s disconnected for lite agents), an explicit one — zero included, which disables the transition, for lite agents too — is taken as given; the liveness decision then equals the oracle on the configured thresholds for all silences",
+					Bounds: "lite or full, each timeout absent / zero / any value up to 1 h, silence up to 3 h", MustReach: []string{"disconnected-disabled", "done"}},
+				{Fn: "verifC07Inbound", Lemma: "what ends the silence: every delivered data datagram of the remote (first one through the agent, later ones through the per-candidate cache) refreshes that remote's LastReceived, and no other remote's",
+					Bounds: "1 local + 2 UDP remotes + 1 TCP remote, cache empty or pre-filled, two consecutive datagrams, payload lengths {1,19,20,24}", MustReach: []string{"known-source", "done"}},
 				{Fn: "verifC04Tick", Lemma: "1..2 check ticks through the real connectivityChecks loop: every notified transition is an edge of the lifecycle graph without repeats, Connected/Disconnected only with a selected pair, a tick while Failed changes nothing, Checking->Failed only with a deadline, Failed releases everything",
 					Bounds: "start states Checking/Connected/Disconnected/Failed, timeouts {default, 0, 1 ns}, silence 1 ms..1 min, 1..2 ticks, both roles", MustReach: []string{"failed-stays", "checking->failed", "->failed", "done"}},
 				{Fn: "verifC04Update", Lemma: "updateConnectionState: exactly one notification carrying the new state iff it changed; the Failed notification is enqueued after the release",
